@@ -32,8 +32,12 @@ package dns
 //@   exit timers: ret1 == nil && timersOnly ==> len(tsigvar) == 8
 
 // stripTsig never indexes outside the message and hands back a prefix of it
-//@ func stripTsig [C11]
+//@ func stripTsig [C11 C02:decr]
 //@   ensures some: ret2 == nil ==> ret1 != nil
+// success means a TSIG record was found among the additional records (a message without one is ErrNoSig), and the
+// walk over the additional section consumes input at every step, whatever ARCOUNT claims
+//@   ensures found: ret2 == nil ==> ret1.Hdr.Rrtype == 250 [C11]
+//@   loop 2 decreases len(msg) - off [C02 C11]
 //@   ensures pre: ret2 == nil ==> ref(ret0) == ref(msg) && sliceoff(ret0) == sliceoff(msg)
 //@   ensures len: ret2 == nil ==> 12 <= len(ret0) && len(ret0) <= len(msg)
 //@   loop * invariant 12 <= off && off <= len(msg)
